@@ -848,3 +848,59 @@ def rf82(run):
             run.violation(rule, f, 'tag %d ambiguous' % t, 'tag %d is written for different field sets %s (disp, base, index, alias): the reader '
                           'cannot know which fields follow' % (t, sorted(fs)), line=stmts[0]['l'])
     return n
+
+
+# ---------------------------------------------------------------------------------------------
+# RF85: every item name read from text passes the reserved-name bookkeeping
+# ---------------------------------------------------------------------------------------------
+
+def rf85(run):
+    rule = 'RF85'
+    run.rule(rule, 'MIR_scan_string: the module keeps the highest number of the reserved `.lcN` item names (last_temp_item_num); loading the '
+                   'module creates `.lc<last+1>` items for string and floating-point immediates.  Every path from the place where a label '
+                   'name is recorded (label_names) to a call that creates a named data item (data, string, bss, ref, lref, expr) passes '
+                   'process_reserved_name for the temp-item prefix; otherwise a read-back module that names a bss / ref / lref item '
+                   '`.lcN` cannot be loaded (repeated item declaration)')
+    tu = run.tu('mir')
+    f = tu.func('MIR_scan_string')
+    run.functions_analysed.add(('mir', f.name))
+    cfg = f.cfg
+    push = [x for x in f.walk() if x['k'] == 'CallExpr' and (x.get('callee') or '').startswith('VARR_label_name_t') and (x.get('callee') or '').endswith('push')]
+    if not push:
+        raise F.AnalysisBroken('MIR_scan_string: recording of label names not found')
+    pb = cfg.block_of(push[0])
+    marks = set()
+    for x in f.walk():
+        if x['k'] == 'CallExpr' and x.get('callee') == 'process_reserved_name' and 'last_temp_item_num' in F.src(x):
+            marks.add(cfg.block_of(x))
+    # helpers of the unit that do the bookkeeping themselves
+    helpers = set()
+    for g in tu.func_list:
+        if g.name != f.name and any(y['k'] == 'CallExpr' and y.get('callee') == 'process_reserved_name' and 'last_temp_item_num' in F.src(y) for y in g.walk()):
+            helpers.add(g.name)
+    for x in f.walk():
+        if x['k'] == 'CallExpr' and x.get('callee') in helpers:
+            marks.add(cfg.block_of(x))
+    # `if (module != NULL) process_reserved_name (…)`: outside a module there is no counter to keep
+    for B in cfg.blocks.values():
+        if B.cond is not None and len(B.succs) == 2 and F.src(F.strip(B.cond)).replace(' ', '').strip('()') in ('module!=0', 'module!=NULL', 'module') \
+                and B.succs[0] in marks:
+            marks.add(B.id)
+    creators = ('MIR_new_data', 'MIR_new_string_data', 'MIR_new_bss', 'MIR_new_ref_data', 'MIR_new_lref_data', 'MIR_new_expr_data')
+    n = 0
+    reach = cfg.reachable_from(pb, avoid=lambda b: b in marks and b != pb)
+    same_block_ok = pb in marks
+    for x in f.walk():
+        if x['k'] == 'CallExpr' and x.get('callee') in creators:
+            b = cfg.block_of(x)
+            n += 1
+            ok = same_block_ok or b not in reach or b in marks
+            run.ob(rule, (x['callee'], x['l']), ok, {'site': '%s:%d' % (f.relfile(), x['l']), 'creator': x['callee'], 'bookkeeping on every path': ok})
+            if not ok:
+                run.violation(rule, f, '%s without the reserved-name bookkeeping' % x['callee'], 'a path from the recording of the label name to `%s` '
+                              'does not pass process_reserved_name (…, TEMP_ITEM_NAME_PREFIX, &module->last_temp_item_num): an item of this kind '
+                              'named `.lcN` in the text leaves the counter too low and MIR_load_module later creates a second `.lcN`' % F.src(x)[:50],
+                              line=x['l'])
+    if n < 6:
+        raise F.AnalysisBroken('MIR_scan_string: only %d data item creators found' % n)
+    return n
